@@ -7,7 +7,8 @@ use brush_core::{ExecutionControlFlow, ExecutionExitCode, ExecutionResult, built
 #[derive(Parser)]
 pub(crate) struct ReturnCommand {
     /// The exit code to return.
-    code: Option<i32>,
+    #[arg(allow_hyphen_values = true)]
+    code: Option<i64>,
 }
 
 impl builtins::Command for ReturnCommand {
